@@ -299,10 +299,27 @@ def _wait_then_poll(fn):
     return w, None
 
 
+def _propagated(c):
+    """the call's result reaches a `?` (directly, or as the tail of a block / inlined helper body that does)"""
+    x = c
+    p_ = c.parent
+    while p_ is not None and isinstance(p_, Node):
+        if p_.k == "try":
+            return True
+        if p_.k == "expr_stmt" and not p_.get("semi") and p_.parent is not None and p_.parent.k == "block" and p_.parent["stmts"][-1] is p_:
+            x, p_ = p_.parent, p_.parent.parent
+            continue
+        if p_.k in ("paren",):
+            x, p_ = p_, p_.parent
+            continue
+        return False
+    return False
+
+
 def ob_consumer(ctx, res):
     """C12-O4 + C12-S1"""
     # await_real_file
-    fn = ctx.ast.fn(T, "await_real_file")
+    fn = ctx.ast.fn(T, "await_real_file", inline=True)
     w, err = _wait_then_poll(fn)
     if err:
         res.fail("await/wait", fn, err)
@@ -354,7 +371,7 @@ def ob_consumer(ctx, res):
         return
     res.ok(fn, "await_real_file(self): wait under the mutex until the writer published its state, then poll the mailbox; copy arms per state; returns the destination")
     # expect_closed_write
-    fn = ctx.ast.fn(T, "expect_closed_write")
+    fn = ctx.ast.fn(T, "expect_closed_write", inline=True)
     w, err = _wait_then_poll(fn)
     if err:
         res.fail("closedWrite/wait", fn, err)
@@ -369,7 +386,7 @@ def ob_consumer(ctx, res):
         res.fail("closedWrite/arms", ms[0], "expect_closed_write must copy InMemory via write_all(&data), Temp via seek(0)+io::copy, nothing for NotStarted, and reject Real")
         return
     for c in list(calls(ms[0], method=("write_all", "seek"))) + [c for c in walk_no_nested_fn(ms[0]) if c.k == "call" and up(c["func"]) == "io::copy"]:
-        if c.parent is None or c.parent.k != "try":
+        if not _propagated(c):
             res.fail("closedWrite/err", c, "copy I/O result must be propagated with `?`")
             return
     if fn.params[0][1].replace(" ", "") != "self":
